@@ -174,6 +174,9 @@ impl Prop for C20 {
     fn id(&self) -> &'static str {
         "C20"
     }
+    fn fresh_thread_cases(&self) -> bool {
+        false // every case talks to processes of its own
+    }
     fn pristine_run(&self) -> bool {
         false // every schedule / driver line owns its process and mode already
     }
